@@ -265,6 +265,7 @@ class Model:
             # undecided.  After one out-of-band round redo runs n itself (as in the serial case, see settle());
             # in this model's sequential order a sibling had settled the lower level first.  Order-dependent: may-run.
             ctx['maybe'].add(n)
+            ctx['unsettled_overbuild'].add(n)      # it did turn out clean: an over-build owed to the single out-of-band round
             return self.run_script(n, ctx, 'unsettled-parallel:' + str(why))
         # settled clean: an extra edge may still have changed while settling
         trig = self.extra_trigger(n, ctx)
@@ -304,6 +305,8 @@ class Model:
                 # and schedule order, so n is a may-run and the observation decides.
                 ctx['maybe'].add(n)
                 if not tops or rounds > 6 or ctx['obs'] is None or (n in ctx['obs'] and n not in ctx['ran']):
+                    if self.clean_if_fully_settled(n, ctx['done']):
+                        ctx['unsettled_overbuild'].add(n)
                     s, why = 'dirty', 'unsettled:' + str(why)
                     break
             failed_known = False
@@ -455,7 +458,7 @@ class Model:
 
     def new_ctx(self, keep=False, obs=None):
         return dict(ran=[], done={}, keep=keep, obs=obs, reasons={}, ambiguous=set(), maybe=set(),
-                    notrun_failed=set(), late=set(), stack=[], extra_new={}, why_list=[], rechecked=set(), absorbed=set(), not_started=set())
+                    notrun_failed=set(), late=set(), stack=[], extra_new={}, why_list=[], rechecked=set(), absorbed=set(), not_started=set(), unsettled_overbuild=set())
 
     def rounds_needed(self, n):
         """Pure: how many out-of-band rounds it takes, from the present state, until n can be judged."""
@@ -472,6 +475,24 @@ class Model:
                 m.update(d, c)
             s, why = m.status(n, c, {})
         return rounds
+
+    def clean_if_fully_settled(self, n, done=None):
+        """Pure: would n turn out clean if the checksummed targets below it were settled level by level?"""
+        m = self.copy()
+        c = m.new_ctx(keep=True)
+        if done:
+            c['done'] = dict(done)
+        s, why = m.status(n, c, {})
+        rounds = 0
+        while s == 'uncertain' and rounds < 8:
+            tops = m.topmost(n, c, {}, [])
+            if not tops:
+                break
+            rounds += 1
+            for d in tops:
+                m.update(d, c)
+            s, why = m.status(n, c, {})
+        return s == 'clean'
 
     def command(self, targets, forced=False, keep=False, obs=None, obsn=None, parallel=False, abort_mode=False):
         """One top-level `redo-ifchange targets...` (or `redo` when forced).  Returns (ok, ctx)."""
